@@ -5,6 +5,7 @@ an uneaten food, foods inside the grid; `WF s` = agent `i` carries id `i`, all l
 are lists of per-agent actions `< 6` (the action spec), one per agent.
 -/
 import JumanjiModel.Env.LBF.Lemmas
+import JumanjiModel.Env.LBF.Bounds
 open Jm Jx LBF
 
 namespace Props.C04
@@ -214,3 +215,47 @@ theorem lbf_instance_stays_consistent (cfg : Cfg) (s : State) (hc : Consistent c
     Consistent cfg.gridSize (finalState cfg s (as.map (fun a => a.map Int.ofNat))) :=
   (consistent_along cfg as s hc hw h).1
 end Props.C10
+
+namespace Props.C01
+/-
+`obsBounds cfg A L` (Env/LBF/Bounds.lean; `A` = num_agents, `L` = the generator's max_agent_level, which `Cfg` does
+not carry): agents_view ∈ [-1, max (A·L) (max L (min (2·fov) (gridSize-1)))] (vector observer) resp.
+[0, max (A·L) L] (grid observer); action_mask ∈ [0, 1]; step_count ∈ [0, timeLimit].
+`BInv cfg A L s` = `Consistent cfg.gridSize s ∧ WF s` ∧ agent levels ≤ L ∧ food levels ≤ A·L ∧ foods on pairwise
+distinct cells (what `RandomGenerator` produces; preserved by every in-spec step: `lbf_binv_step`).  No hypothesis on
+`fov`, sizes or counts.
+-/
+
+/-- reset: the observation of any state satisfying the invariant with step count 0 lies within `obsBounds` (the
+model has no generator; `resetTs cfg s = restart (observe cfg s)`) -/
+theorem lbf_reset_obs_in_bounds (cfg : Cfg) (A L : Nat) (s : State) (h : BInv cfg A L s)
+    (h0 : s.stepCount = 0) (ht : 0 ≤ cfg.timeLimit) :
+    ObsInBounds (obsBounds cfg A L) (resetTs cfg s).obs := reset_obs_in_bounds cfg A L s h h0 ht
+
+/-- every step before the time limit is reached — including the one that reaches it (`step_count = time_limit`)
+and the one that collects the last food — emits an observation within `obsBounds`, for every in-spec joint action -/
+theorem lbf_step_obs_in_bounds (cfg : Cfg) (A L : Nat) (s : State) (h : BInv cfg A L s) (as : List Nat)
+    (hlen : as.length = s.agents.length) (has : ∀ a ∈ as, a < 6)
+    (h0 : 0 ≤ s.stepCount) (h1 : s.stepCount < cfg.timeLimit) :
+    ObsInBounds (obsBounds cfg A L) (step cfg s (as.map Int.ofNat)).2.obs :=
+  step_obs_in_bounds cfg A L s h as hlen has h0 h1
+
+/-- the invariant is kept by every in-spec joint action, hence holds along whole episodes -/
+theorem lbf_binv_step (cfg : Cfg) (A L : Nat) (s : State) (h : BInv cfg A L s) (as : List Nat)
+    (hlen : as.length = s.agents.length) (has : ∀ a ∈ as, a < 6) :
+    BInv cfg A L (step cfg s (as.map Int.ofNat)).1 := step_binv cfg A L s h as hlen has
+
+theorem lbf_binv_along (cfg : Cfg) (A L : Nat) (as : List (List Nat)) (s : State) (h : BInv cfg A L s)
+    (has : ∀ a ∈ as, a.length = s.agents.length ∧ ∀ x ∈ a, x < 6) :
+    BInv cfg A L (finalState cfg s (as.map (fun a => a.map Int.ofNat))) := binv_along cfg A L as s h has
+
+/-- non-vacuity: `obsBounds` has an interval for every leaf of the observation -/
+theorem lbf_obs_bounds_cover (cfg : Cfg) (A L : Nat) (o : Obs) :
+    ∀ p ∈ obsLeaves o, ∃ b ∈ obsBounds cfg A L, b.1 = p.1 := obs_bounds_cover cfg A L o
+
+/-- the hypotheses are satisfiable: two agents (levels 1, 2 ≤ L = 2), foods of level 3, 4 ≤ A·L = 4
+(one already eaten), grid observer, a joint action [right, load] -/
+example : BInv ⟨5, 1, 7, true, true, 0⟩ 2 2
+      ⟨[⟨0, (1, 1), 1, false⟩, ⟨1, (1, 2), 2, false⟩], [⟨0, (2, 2), 3, false⟩, ⟨1, (3, 0), 4, true⟩], 0⟩ ∧
+    ([4, 5] : List Nat).length = 2 ∧ (∀ a ∈ ([4, 5] : List Nat), a < 6) ∧ (0 : Int) ≤ 0 ∧ (0 : Int) < 7 := by decide
+end Props.C01
